@@ -229,6 +229,11 @@ def render_export(st, mod, name, e) -> list[str]:
         out += ["%s: Final = %s" % (name, lit(e["t"]))]
     elif k == "alias":
         out += ["%s = list[%s]" % (name, e["t"])]
+    elif k == "box" and e.get("bound"):
+        # the class's own type variable with an upper bound (switched on and off by `toggle_bound`): type arguments
+        # written in OTHER modules become invalid / valid again without those modules changing
+        tv = "BT" + name
+        out += ["%s = TypeVar('%s', bound=%s)" % (tv, tv, e["bound"]), "class %s(Generic[%s]):" % (name, tv), "    def __init__(self, v: %s) -> None:" % tv, "        self.v = v", "    def get(self) -> %s:" % tv, "        return self.v"]
     elif k == "box":
         out += ["class %s(Generic[T]):" % name, "    def __init__(self, v: T) -> None:", "        self.v = v", "    def get(self) -> T:", "        return self.v"]
     elif k == "proto":
@@ -303,6 +308,12 @@ def render_use(st, mod, u) -> list[str]:
         out += ["c%d: %s = %s%s" % (i, u["t"], r, tail)]
     elif kind == "alias":
         out += ["al%d: %s = [%s]%s" % (i, r, lit(u["a"]), tail)]
+    elif kind == "box" and u.get("ovl"):
+        # the generic class with an explicit type argument in every part of an overloaded function, a method and a plain function
+        ra = "%s[%s]" % (r, u["a"])
+        out += ["@overload", "def bo%d(v: int) -> %s | None: ..." % (i, ra), "@overload", "def bo%d(v: str, w: %s | None = None) -> str: ..." % (i, ra), "def bo%d(v: object, w: %s | None = None) -> object:" % (i, ra), "    loc: %s | None = None" % ra, "    return loc",
+                "class BC%d:" % i, "    @overload", "    def m(self, v: int) -> %s | None: ..." % ra, "    @overload", "    def m(self, v: str) -> str: ...", "    def m(self, v: object) -> object:", "        return None",
+                "def bp%d(v: %s | None) -> None: ..." % (i, ra)]
     elif kind == "box":
         out += ["b%d: %s = %s(%s).get()%s" % (i, u["t"], r, lit(u["a"]), tail)]
     elif kind == "proto":
@@ -531,6 +542,15 @@ def apply_edit(st, op) -> bool:
             u = new_use(rnd, fresh(st), op["dep"], op["name"])
             u["sig"] = k
             m["uses"].append(u)
+    elif kind == "add_box_ovl_use" and op.get("dep") in m["imports"] and op.get("dep") in st["mods"] and op.get("name") in st["mods"][op["dep"]]["exports"]:
+        u = new_use(rnd, fresh(st), op["dep"], op["name"])
+        u.pop("sig", None)
+        u["ovl"] = True
+        u["a"] = "str"
+        m["uses"].append(u)
+    elif kind == "toggle_bound" and op.get("name") in m["exports"] and m["exports"][op["name"]]["kind"] == "box":
+        e = m["exports"][op["name"]]
+        e["bound"] = None if e.get("bound") else ["int", "float", "bytes"][op["seed"] % 3]
     elif kind == "ensure_cls":
         if not any(x["kind"] == "cls" and not x.get("hidden") and not x.get("base") for x in m["exports"].values()):
             add_export(st, rnd, mod, "cls")
